@@ -13,15 +13,29 @@ from tools import common
 LEVEL = "proof"
 MANIFEST = dict(
     category="proof",
-    text="Lean 4 theorems over a model of util.write_continue/write_lines (text preservation, grouping of whole parts "
-         "per physical line, break points only at TAB/FF, marker on every broken line, length bound 'fits or carries at most "
-         "one part', directive semantics, totality) for all lines/lengths/indents; the model is tied to util.py on every run by "
-         "differential correspondence through the compiled Lean driver; an implementation-only oracle searches for failing inputs.",
-    design="3 C13",
+    text="Lean 4 theorems over a model of util.write_continue / write_lines / write_output_file / _literal_lines, for all "
+         "lines, lengths, indentation depths, indentation units and continuation markers: text preservation modulo whitespace "
+         "at break points (wc_text_preserved), whole parts per physical line and breaks only where a TAB/FF stood "
+         "(wc_grouping, wc_parts_are_hint_free_segments), marker on every broken line (render_markers), length bound 'fits or "
+         "holds a single part' incl. the marker (wc_length, rendered_line_limit), the documented directive table as the exact "
+         "semantics of write_lines (wl_subline_spec, wl_indent_sum, wl_total: no crash), header-then-body for every file "
+         "(wof_header_then_body), and user supplied lines are never read as directives (user_line_protected, "
+         "user_line_emitted; witness unprotected_line_loses_text). Table theorems over regenerated AST scans: each emitter's "
+         "line length option and continuation marker, default F_line_length + marker <= 132 (emitter_line_config); both "
+         "user-code branches of _create_splicer pass through _literal_lines (splicer_branches_protect_user_code). The model is "
+         "tied to util.py on every run by differential correspondence through the compiled Lean driver (write_continue, "
+         "write_lines, write_output_file, _literal_lines; exhaustive short strings over the directive alphabet, seeded random "
+         "and statement-shaped structured lines); implementation-only oracles search for failing inputs: existential re-reading "
+         "of the physical lines, documented directive table, each language's files depend on their own line-length option only, "
+         "132 columns with identifiers <= 63 characters, and user lines through declaration-level splicer: / splicer_code: "
+         "reach the files character for character.",
+    design="3 C13, 9.4, 9.9",
     note="Trusted: Lean kernel (axioms propext, Classical.choice, Quot.sound only); the hand-written model, validated only on "
-         "generated inputs (exhaustive short strings over the directive alphabet + seeded random lines); Python whitespace "
-         "modelled on ASCII+U+0085/U+00A0. The 132-column consequence for real outputs is a corpus measurement (thorough tier).",
-    technique="Lean 4 proof by induction over the part list + differential correspondence model/implementation",
+         "generated inputs; translator tools/extract_linecfg.py; Python whitespace modelled on ASCII+U+0085/U+00A0. The "
+         "132-column consequence for real outputs is a measurement over generated libraries and (thorough tier) the corpus. "
+         "TAB/FF inside a user line are consumed as break hints (open C12 finding, not a C13 violation: the hint is whitespace).",
+    technique="Lean 4 proof by induction over the part list / case analysis of the directive reader, decide +kernel over "
+              "regenerated tables + differential correspondence model/implementation + end-to-end oracles",
 )
 MODULES = ["ShroudVerif.Props.C13"]
 THEOREMS = {
